@@ -219,3 +219,17 @@ def require_after(ctx, rid, fid, first, sink, what=None, exclude_first=True):
         return False
     ex = {b for b, _t in cfg.find_calls(fn, first)} if exclude_first else frozenset()
     return require_pass(ctx, rid, fid, ("edges", e, "call of " + _patstr(first)), sink, what, exclude_blocks=ex)
+
+
+def param(f, name, ty=None, nth=0):
+    """Local index of a parameter: by its name, else (after a rename) by type substring, taking the
+    nth parameter of that type."""
+    byname = [pl[0] for n, pl, a in f.vars if n == name and a > 0 and not pl[1]]
+    if byname:
+        return byname[0]
+    if ty is None:
+        return None
+    cands = [i for i in range(1, f.argc + 1) if ty in f.locals[i]["ty"]]
+    if len(cands) > nth:
+        return cands[nth]
+    return None
